@@ -11,7 +11,7 @@
    (doc_sat), under the per-case booleans same_graph / spec_okb / dgraph_ok. *)
 From Coq Require Import List String Ascii Arith.
 From PC Require Import Base.Codes Comp.Syntax Comp.Compile Design.Propagate Design.PropagateProofs Design.Designer Design.DesignerProofs Design.TemplateProofs
-  Design.Contraction Design.DGraph Design.DenoteGraph Design.DenoteTie Design.DenoteSat Design.Loaded.
+  Design.Contraction Design.DGraph Design.DenoteGraph Design.DenoteTie Design.DenoteSat Design.Loaded Design.SeedTotal.
 Import ListNotations.
 
 Theorem C15_odd_cycle_reported : forall g m,
@@ -85,3 +85,18 @@ Theorem C15_design_arrays_cases : forall ls : list pline, (exists k, design_arra
     (design_arrays ls false = DOver \/ exists e w s, design_arrays ls false = DOk e w s).
 Proof. exact design_arrays_cases. Qed.
 Print Assumptions C15_design_arrays_cases.
+
+(* strand layout: seed never fails on a loaded document, so every loaded document gets the report or arrays,
+   and the only errors of constraint generation are the loader's *)
+Theorem C15_loaded_design_total : forall ls p, load_spec ls pspec0 = OK p ->
+  design_arrays ls false = DOver \/ exists e w s, design_arrays ls false = DOk e w s.
+Proof. exact loaded_design_total. Qed.
+Print Assumptions C15_loaded_design_total.
+
+Theorem C15_design_arrays_error : forall ls k, design_arrays ls false = DErr k -> load_spec ls pspec0 = Err k.
+Proof. exact design_arrays_error. Qed.
+Print Assumptions C15_design_arrays_error.
+
+Theorem C15_seed_total : forall ls p, load_spec ls pspec0 = OK p -> exists g, seed p false = OK (build_layout p false, g).
+Proof. exact seed_total. Qed.
+Print Assumptions C15_seed_total.
